@@ -37,7 +37,7 @@ def _related_logs(inp, nl, nf):
     return t, lt, ft, g
 
 
-@obligation('PG', props=('C05',), quick=[dict(nl=3, nf=3, batch=b) for b in (2, 100)] + [dict(nl=4, nf=2, batch=2), dict(nl=4, nf=4, batch=2), dict(nl=3, nf=4, batch=2)],
+@obligation('PG', props=('C05',), quick=[dict(nl=3, nf=3, batch=b) for b in (2, 100)] + [dict(nl=4, nf=2, batch=2), dict(nl=4, nf=4, batch=2), dict(nl=3, nf=4, batch=2), dict(nl=5, nf=5, batch=2), dict(nl=5, nf=4, batch=2)],
             thorough=[dict(nl=nl, nf=nf, batch=b) for nl in (2, 3, 4, 5, 6, 7, 8) for nf in (1, 2, 3, 4, 5, 6, 7, 8) for b in (2, 3, 100)], stubs=_STUBS,
             bounds='leader log <=5 (thorough 8), follower log <=5 (thorough 8) entries (index 1 common), related by Log Matching with any agreement length, any nextIndex, follower term <= leader term, 2 entries or all entries per message (a single 1-byte entry per message would take the chunked path, which is the subject of A3); stable connection, no other event')
 def PG(inp, nl, nf, batch):
